@@ -28,7 +28,7 @@ import sys
 sys.path.insert(0, os.path.dirname(os.path.abspath(__file__)))
 import verif as V  # noqa: E402  (read-only use: REPO, CXX, tree_dir(), include_dir())
 
-GEN_VERSION = "1"
+GEN_VERSION = "2"
 
 
 def _self_hash():
@@ -144,6 +144,70 @@ def _ctor_facts(rec, qual):
     return defc, bufc, anypub, not copy_deleted, others
 
 
+def _const_value(node):
+    """value of an enumerator's initializer, if it has one"""
+    for c in node.get("inner", []):
+        if "value" in c and c.get("kind") in ("ConstantExpr", "IntegerLiteral"):
+            try:
+                return int(c["value"])
+            except ValueError:
+                return None
+        v = _const_value(c)
+        if v is not None:
+            return v
+    return None
+
+
+_INT_BITS = {"bool": ("B", 1), "unsigned char": ("U", 8), "signed char": ("U", 8), "char": ("U", 8), "unsigned short": ("U", 16),
+             "short": ("U", 16), "unsigned int": ("U", 32), "int": ("U", 32), "unsigned long": ("U", 64), "long": ("U", 64),
+             "unsigned long long": ("U", 64), "long long": ("U", 64)}
+
+
+def _setters(rec, enums):
+    """public non-static `void name(A)` members whose A is a small value type that could steer how the object identifies
+    itself: integers, bool, Tins::small_uint<N>, enums.  Names with more than one such overload (or a template of that name)
+    are left out: the harness takes `&C::name` and lets the compiler pick the one-argument void overload."""
+    access = "private" if rec.get("tagUsed") == "class" else "public"
+    cands, names = [], {}
+    for c in rec.get("inner", []):
+        k = c.get("kind")
+        if k == "AccessSpecDecl":
+            access = c.get("access", access)
+            continue
+        if k == "FunctionTemplateDecl":
+            names[c.get("name")] = names.get(c.get("name"), 0) + 2
+            continue
+        if k != "CXXMethodDecl" or c.get("isImplicit"):
+            continue
+        nm = c.get("name", "")
+        qt = c.get("type", {}).get("qualType", "")
+        params = [x for x in c.get("inner", []) if x.get("kind") == "ParmVarDecl"]
+        if not qt.startswith("void (") or qt.rstrip().endswith("const") or len(params) != 1:
+            continue
+        names[nm] = names.get(nm, 0) + 1
+        if access != "public" or c.get("storageClass") == "static" or c.get("explicitlyDeleted") or nm.startswith("operator"):
+            continue
+        t = params[0].get("type", {})
+        d = t.get("desugaredQualType", t.get("qualType", "")).replace("const ", "").strip()
+        if d.endswith("&") or d.endswith("*"):
+            continue
+        kind = None
+        if d in _INT_BITS:
+            kind = _INT_BITS[d]
+        elif d.startswith("Tins::small_uint<") and d.endswith(">"):
+            try:
+                kind = ("S", int(d[len("Tins::small_uint<"):-1]))
+            except ValueError:
+                kind = None
+        else:
+            e = d[5:] if d.startswith("enum ") else d
+            if e in enums and enums[e][0] >= 0:
+                kind = ("E", max(1, enums[e][1].bit_length()))
+        if kind:
+            cands.append({"name": nm, "kind": kind[0], "bits": kind[1], "arg": d})
+    return [c for c in cands if names.get(c["name"], 0) == 1]
+
+
 def extract(gd, include_dirs):
     """-> dict(classes=[...], templates=[...], flags=[...], headers=[...])"""
     os.makedirs(gd, exist_ok=True)
@@ -155,6 +219,7 @@ def extract(gd, include_dirs):
     templates = {}   # qualified name -> templated record node
     flags = []
     order = []
+    enums = {}       # qualified enum name -> (min, max) enumerator value
 
     def file_of(node, cur):
         loc = node.get("loc", {})
@@ -187,10 +252,21 @@ def extract(gd, include_dirs):
                 if c.get("kind") == "CXXRecordDecl" and c.get("completeDefinition"):
                     templates[q] = c
         elif k == "EnumDecl":
-            if "::".join(scope + [node.get("name", "")]) == "Tins::PDU::PDUType":
-                for c in node.get("inner", []):
-                    if c.get("kind") == "EnumConstantDecl":
-                        flags.append(c["name"])
+            eq = "::".join(scope + [node.get("name", "")])
+            lo = hi = prev = None
+            for c in node.get("inner", []):
+                if c.get("kind") != "EnumConstantDecl":
+                    continue
+                v = _const_value(c)
+                if v is None:
+                    v = 0 if prev is None else prev + 1
+                prev = v
+                lo = v if lo is None else min(lo, v)
+                hi = v if hi is None else max(hi, v)
+                if eq == "Tins::PDU::PDUType":
+                    flags.append(c["name"])
+            if node.get("name") and hi is not None:
+                enums[eq] = (lo, hi)
 
     for d in docs:
         if d.get("kind") == "NamespaceDecl" and d.get("name") == "Tins":
@@ -268,6 +344,7 @@ def extract(gd, include_dirs):
             "other_ctors": others, "own_flag": own, "flag": flag,
             "bases": [b for b, acc, _ in bs if derives(b)],
             "nonpublic_pdu_base": any(acc != "public" for b, acc, _ in bs if derives(b)),
+            "setters": _setters(node, enums),
         })
     tmpls = []
     for q, node in sorted(templates.items()):
@@ -295,11 +372,14 @@ HEADER = """// GENERATED by /verif/lib/gen.py from the headers of the tree being
 //   TINS_PDU_BASE(Q, ID, QB, IDB)               QB is a direct base class of Q (both derive from PDU or QB is PDU)
 //   TINS_PDU_TEMPLATE(ID)                       a class TEMPLATE deriving from PDU (its instances are not listed above)
 //   TINS_PDU_FLAGNAME(NAME)                     every enumerator of PDU::PDUType
+//   TINS_PDU_SETTER(Q, ID, DQ, NAME, KIND, BITS) for every CONCRETE, default-constructible Q: a public `void DQ::NAME(A)` declared by Q or
+//                                               one of its PDU bases DQ whose argument is a small value type: KIND U = integer of BITS bits,
+//                                               B = bool, S = Tins::small_uint<BITS>, E = enum whose enumerators need BITS bits
 // Undefined macros expand to nothing.
 """
 
 MACROS = ["TINS_PDU_CLASS", "TINS_PDU_CONCRETE", "TINS_PDU_FLAGGED", "TINS_PDU_CACHEABLE", "TINS_PDU_BASE",
-          "TINS_PDU_TEMPLATE", "TINS_PDU_FLAGNAME"]
+          "TINS_PDU_TEMPLATE", "TINS_PDU_FLAGNAME", "TINS_PDU_SETTER"]
 
 
 def render(t):
@@ -328,6 +408,23 @@ def render(t):
         o.append("TINS_PDU_TEMPLATE(%s)\n" % tp["id"])
     for f in t["flags"]:
         o.append("TINS_PDU_FLAGNAME(%s)\n" % f)
+    byname = {c["name"]: c for c in t["classes"]}
+
+    def lineage(q, seen):
+        if q in seen or q not in byname:
+            return []
+        seen.add(q)
+        out = [q]
+        for bq in byname[q]["bases"]:
+            out += lineage(bq, seen)
+        return out
+
+    for c in t["classes"]:
+        if c["abstract"] or not c["public_ctor"] or not c["defctor"] or c["nonpublic_pdu_base"]:
+            continue
+        for dq in lineage(c["name"], set()):
+            for st in byname[dq]["setters"]:
+                o.append("TINS_PDU_SETTER(%s, %s, %s, %s, %s, %d)\n" % (c["name"], c["id"], dq, st["name"], st["kind"], st["bits"]))
     for m in MACROS:
         o.append("#ifdef %s_DEFAULTED_\n#undef %s\n#undef %s_DEFAULTED_\n#endif\n" % (m, m, m))
     return "".join(o)
